@@ -283,3 +283,11 @@ def same_outcome(pred, oc):
     if 'value' in pred:
         return pred['value'] == oc.get('value')
     return True
+
+
+def ref_canon(obj):
+    """the documented canonical form, independent of the code under test: UTF-8 JSON, keys sorted, indent 2, ASCII-escaped
+    (what the library's docstring and the specification define; oracles compare against this, never against the
+    possibly modified canonserialize)"""
+    import json
+    return json.dumps(obj, indent=2, sort_keys=True).encode('utf-8')
